@@ -2,6 +2,7 @@ package c02
 
 import (
 	"context"
+	"errors"
 	"fmt"
 	"strings"
 	"sync"
@@ -12,6 +13,7 @@ import (
 
 	"github.com/cosi-project/runtime/pkg/resource"
 	"github.com/cosi-project/runtime/pkg/state"
+	"github.com/cosi-project/runtime/pkg/state/impl/inmem"
 
 	"verifharness/hk"
 	"verifharness/hres"
@@ -33,8 +35,9 @@ type SWatcher struct {
 
 // SPlan is a stress plan.
 type SPlan struct {
-	Impl     string     `json:"impl"`
-	Writers  [][]int    `json:"writers"` // per resource: 0 update (or create when absent), 1 destroy (or create when absent), 2 yield
+	Impl     string     `json:"impl"`              // an implementation name of sim.Build, or "backed-faulty": in-memory-backed whose Put/Destroy fail now and then
+	FailMod  int        `json:"failmod,omitempty"` // backed-faulty: every FailMod-th backing store write fails
+	Writers  [][]int    `json:"writers"`           // per resource: 0 update (or create when absent), 1 destroy (or create when absent), 2 yield
 	Watchers []SWatcher `json:"watchers"`
 }
 
@@ -42,6 +45,10 @@ type SPlan struct {
 func GenS(impl string) func(t *rapid.T) SPlan {
 	return func(t *rapid.T) SPlan {
 		p := SPlan{Impl: impl}
+
+		if impl == "backed-faulty" {
+			p.FailMod = rapid.IntRange(2, 7).Draw(t, "failmod")
+		}
 
 		nres := rapid.IntRange(1, 3).Draw(t, "nres")
 		for i := 0; i < nres; i++ {
@@ -60,6 +67,47 @@ func GenS(impl string) func(t *rapid.T) SPlan {
 
 		return p
 	}
+}
+
+var errFaultyBacking = errors.New("injected backing store failure")
+
+// faultyBacking fails every mod-th write (a rejected write must leave no trace, neither in reads nor in watch streams).
+type faultyBacking struct {
+	*sim.MemBacking
+	mod int64
+	n   atomic.Int64
+}
+
+func (b *faultyBacking) Put(ctx context.Context, typ resource.Type, r resource.Resource) error {
+	if b.n.Add(1)%b.mod == 0 {
+		return errFaultyBacking
+	}
+
+	return b.MemBacking.Put(ctx, typ, r)
+}
+
+func (b *faultyBacking) Destroy(ctx context.Context, typ resource.Type, p resource.Pointer) error {
+	if b.n.Add(1)%b.mod == 0 {
+		return errFaultyBacking
+	}
+
+	return b.MemBacking.Destroy(ctx, typ, p)
+}
+
+// resync re-reads the writer's resource after a rejected write (the writer is the only party writing it).
+func resync(ctx context.Context, st state.CoreState, id string, harness *atomic.Value) *hres.R {
+	r, err := st.Get(ctx, resource.NewMetadata("n1", "TA", id, resource.VersionUndefined))
+	if err != nil {
+		if !state.IsNotFoundError(err) {
+			harness.Store(fmt.Sprintf("resync of %s: %v", id, err))
+		}
+
+		return nil
+	}
+
+	hr, _ := r.(*hres.R) //nolint:errcheck
+
+	return hr
 }
 
 type sEntry struct {
@@ -88,16 +136,23 @@ type sSegment struct {
 //
 //nolint:gocyclo,gocognit,cyclop,maintidx
 func RunS(p SPlan) (v hk.Verdict) {
-	impl, err := sim.Build(p.Impl)
-	if err != nil {
-		v.Failf("harness: %v", err)
+	var st state.CoreState
 
-		return v
+	if p.Impl == "backed-faulty" {
+		st = inmem.NewStateWithOptions(inmem.WithBackingStore(&faultyBacking{MemBacking: sim.NewMemBacking(), mod: int64(p.FailMod)}))("n1")
+	} else {
+		impl, err := sim.Build(p.Impl)
+		if err != nil {
+			v.Failf("harness: %v", err)
+
+			return v
+		}
+
+		defer impl.Close()
+
+		st = impl.State
 	}
 
-	defer impl.Close()
-
-	st := impl.State
 	ctx, cancel := context.WithCancel(context.Background())
 
 	defer cancel()
@@ -146,6 +201,12 @@ func RunS(p SPlan) (v hk.Verdict) {
 				case cur == nil:
 					r := hres.New("n1", "TA", id, val)
 					if err := st.Create(ctx, r); err != nil {
+						if errors.Is(err, errFaultyBacking) {
+							cur = resync(ctx, st, id, &harness)
+
+							continue
+						}
+
 						harness.Store(fmt.Sprintf("writer %d create: %v", ri, err))
 
 						return
@@ -155,6 +216,12 @@ func RunS(p SPlan) (v hk.Verdict) {
 					e = sEntry{Kind: state.Created, Val: val, Ver: r.Metadata().Version().String()}
 				case op == 1:
 					if err := st.Destroy(ctx, cur.Metadata()); err != nil {
+						if errors.Is(err, errFaultyBacking) {
+							cur = resync(ctx, st, id, &harness)
+
+							continue
+						}
+
 						harness.Store(fmt.Sprintf("writer %d destroy: %v", ri, err))
 
 						return
@@ -167,6 +234,12 @@ func RunS(p SPlan) (v hk.Verdict) {
 					r.SetValue(val)
 
 					if err := st.Update(ctx, r); err != nil {
+						if errors.Is(err, errFaultyBacking) {
+							cur = resync(ctx, st, id, &harness)
+
+							continue
+						}
+
 						harness.Store(fmt.Sprintf("writer %d update: %v", ri, err))
 
 						return
